@@ -154,7 +154,8 @@ PROPS["C08"] = {
 PROPS["C12"] = {
     "model_is_spec": ['qq', 'macro'],
     "lean_module": "LispModel.Props.C12",
-    "engines": [{"name": "qq", "quick": 4000, "thorough": 80000}, {"name": "macro", "quick": 1500, "thorough": 30000}],
+    "engines": [{"name": "qq", "quick": 4000, "thorough": 80000}, {"name": "macro", "quick": 1500, "thorough": 30000},
+                {"name": "macrolong", "quick": 1, "thorough": 1, "deterministic": True}],
     "technique": "Lean 4 theorems (quasiquote = template substitution; macro call = evaluation of its expansion) + differential correspondence",
     "level_text": "Theorems about the mirror of quasiquote/qq_loop/macroexpand for templates of any nesting; tie: generated templates (unquote / splice at any "
                   "position, vectors, maps, symbols) and macros built from them (recursive, expanding to library macros), call route vs macroexpand route.",
@@ -166,7 +167,8 @@ PROPS["C13"] = {
     "lean_module": "LispModel.Props.C13",
     "engines": [{"name": "coll", "quick": 8000, "thorough": 200000},
                 {"name": "tyctor", "quick": 3000, "thorough": 60000},
-                {"name": "arith", "quick": 3000, "thorough": 60000}],
+                {"name": "arith", "quick": 3000, "thorough": 60000},
+                {"name": "seqstr", "quick": 1, "thorough": 1, "deterministic": True}],
     "technique": "Lean 4 algebraic laws of the pure builtin model (sequence / map / set model) + differential correspondence on generated calls and compositions",
     "level_text": "The builtins are modelled as pure functions on immutable values (Core.lean) and shown to satisfy the sequence/map/set laws; the model is "
                   "compared with the real builtins (through the reflective binder) on generated argument tuples incl. nil, empty, negative and out-of-range indices.",
@@ -302,7 +304,8 @@ PROPS["C19"] = {
     "lean_module": "LispModel.Props.C19",
     "engines": [{"name": "routes", "quick": 2500, "thorough": 40000},
                 {"name": "lnot", "quick": 3000, "thorough": 60000},
-                {"name": "reload", "quick": 1, "thorough": 1, "deterministic": True}],
+                {"name": "reload", "quick": 1, "thorough": 1, "deterministic": True},
+                {"name": "routesdeep", "quick": 1, "thorough": 1, "deterministic": True}],
     "technique": "Lean 4 theorems (evaluation commutes with every cursor map, layout gaps are invisible to the scanner, do creates no scope, load-file wrapper) + differential run of one program over seven delivery routes and random layouts",
     "level_text": "Theorems: the whole evaluator block commutes with erasing (or changing) source positions — values, payloads, effects and store are equal, only "
                   "error positions differ; whitespace and comments between tokens do not change the token sequence; `do` evaluates its forms in the same scope; "
